@@ -104,7 +104,7 @@ Definition agree10 (c : case10) : bool :=
       end
   | KRepl tab ns cs rps docs cls after =>
       agree_res nodes_eqb
-        (replacement_filter (parse_of tab) enc10 (nonstr_of ns) (cs_of cs) simple_lsel corr_fuel rps docs) cls after
+        (replacement_filter (parse_of tab) enc10 (nonstr_of ns) simple_lsel corr_fuel rps docs) cls after
   end.
 
 Definition mismatches10 (l : list case10) : list N := mism_from agree10 0%N l.
